@@ -138,18 +138,18 @@ Qed.
 
 (* ... and the listing: whatever the other lines say, the sums are those of the figures *)
 Theorem k6_smaps_ignores_decoys ex ms :
-  (forall m, In m ms -> wf_header m = true /\ marker_ok ex m = true /\ probe_answers ex m = true /\
+  (forall m, In m ms -> wf_header m = true /\ marker_ok ex m = true /\
      exists fv d fl, m_lines m = k6_lines fv d fl /\ (forall f, is_dec (fv f) = true) /\
                      (forall i, is_dec (d i) = true) /\ fl <> [] /\ forallb flag_ok fl = true) ->
   parse_smaps Alive (FContent (k_smaps ms)) = Val (spec_sums ms)
   /\ memory_maps Alive ex (FContent (k_smaps ms)) = Val (map spec_row ms).
 Proof.
   intros H. assert (W : forallb (wf_kernel ex) ms = true).
-  { apply forallb_forall. intros m Hm. destruct (H m Hm) as (Hh & Hmk & Hpa & fv & d & fl & El & Hf & Hd & Hne & Hfl).
-    unfold wf_kernel, wf_kernel0. rewrite Hh, Hmk, Hpa, El. now rewrite k6_body_wf. }
+  { apply forallb_forall. intros m Hm. destruct (H m Hm) as (Hh & Hmk & fv & d & fl & El & Hf & Hd & Hne & Hfl).
+    unfold wf_kernel, wf_kernel0. rewrite Hh, Hmk, El. now rewrite k6_body_wf. }
   assert (U : uniform_figs ms = true).
   { unfold uniform_figs. apply forallb_forall. intros f Hf. apply orb_true_iff. left.
-    apply forallb_forall. intros m Hm. destruct (H m Hm) as (_ & _ & _ & fv & d & fl & El & _).
+    apply forallb_forall. intros m Hm. destruct (H m Hm) as (_ & _ & fv & d & fl & El & _).
     unfold has_fig. rewrite El, (k6_has_fig fv d fl f Hf). reflexivity. }
   split; [apply parse_smaps_spec; now apply (forallb_kernel0 ex)|now apply maps_ungrouped].
 Qed.
@@ -296,36 +296,38 @@ Proof. split; reflexivity. Qed.
 
 (* ------------------------------------------------ the existence probe of a marked name *)
 (* number and order of the listed mappings are those of the smaps records, and every column
-   but the path is the record's, whatever the probe answers among "there" / "not there for
-   whatever errno" (ENOENT, ENOTDIR, ENAMETOOLONG, ELOOP, EIO, EOVERFLOW ...) -- also for
-   names whose marker is ambiguous *)
+   but the path is the record's, whatever the probe answers: "there", "not there" for
+   whatever errno (ENOENT, ENOTDIR, ENAMETOOLONG, ELOOP, EIO, EOVERFLOW ...) or "permission
+   denied" -- also for names whose marker is ambiguous; the call never fails *)
 Theorem maps_rows_any_probe ex ms :
-  forallb wf_kernel0 ms = true -> uniform_figs ms = true -> forallb (probe_answers ex) ms = true ->
+  forallb wf_kernel0 ms = true -> uniform_figs ms = true ->
   exists rows, memory_maps Alive ex (FContent (k_smaps ms)) = Val rows
     /\ length rows = length ms
     /\ map w_addr rows = map m_addr ms /\ map w_perms rows = map m_perms ms
     /\ map w_nums rows = map (fun m => map (fun f => kb m f * 1024) row_figs) ms
     /\ map w_path rows = map (row_path ex) ms.
 Proof.
-  intros Hwf Hu Ha. exists (map (probed_row ex) ms). split; [now apply maps_rows|].
+  intros Hwf Hu. exists (map (probed_row ex) ms). split; [now apply maps_rows|].
   rewrite map_length, !map_map. repeat split.
 Qed.
 
-(* the probe failing for a reason other than "not there" never changes the path a readable
-   marker yields: an unlinked file whose marked name is too long / loops / is unreadable media
-   is listed under its own name, like one whose marked name is simply absent *)
+(* why the probe says "not there" (which errno, or a permission error) never changes the path
+   a readable marker yields: an unlinked file whose marked name is too long / loops / sits on
+   unreadable media / may not be looked up is listed under its own name *)
 Theorem absent_errno_irrelevant ex ex' m :
   path_head_ok m = true -> m_deleted m = true ->
   is_exists (ex (shown_path m)) = false -> is_exists (ex' (shown_path m)) = false ->
   row_path ex m = row_path ex' m.
 Proof. intros _ _ H H'. unfold row_path. now rewrite H, H'. Qed.
 
-(* PermissionError of the probe: the whole call fails with AccessDenied although the smaps
-   file was read -- the listing the property demands is not produced *)
+(* the defect repaired by /repo commit b718f0c: the decoding as it was before
+   (clean_path_strict) let the probe's PermissionError fail the whole call with AccessDenied;
+   the present one lists the unlinked file under its own name *)
 Definition deny_all : bytes -> probe_res := fun _ => PDenied.
 Theorem maps_probe_denied_refuted :
-  forallb wf_kernel0 [ex_m1; ex_m2] = true /\ uniform_figs [ex_m1; ex_m2] = true
-  /\ m_deleted ex_m1 = true /\ probe_answers deny_all ex_m1 = false
-  /\ memory_maps Alive deny_all (FContent (k_smaps [ex_m1; ex_m2])) = Exc AccessDenied
+  wf_kernel deny_all ex_m1 = true /\ m_deleted ex_m1 = true
+  /\ clean_path_strict deny_all (shown_path ex_m1) = Exc AccessDenied
+  /\ clean_path deny_all (shown_path ex_m1) = Val (m_path ex_m1)
+  /\ memory_maps Alive deny_all (FContent (k_smaps [ex_m1; ex_m2])) = Val (map spec_row [ex_m1; ex_m2])
   /\ map w_path (map spec_row [ex_m1; ex_m2]) = [bs "/tmp/a b:c"; bs "[anon]"].
 Proof. vm_compute. repeat split. Qed.
